@@ -273,6 +273,9 @@ def expected_suspensions(o, susp, fl):
             n += susp
         elif e["ev"] == "await":
             n += susp
+    for h in o.handles:           # asynchronous closes of class-based sources suspend as well
+        if type(h).__name__ in ("ClsSource", "ClsSourceTruthyClose"):
+            n += susp * o.closes.get(getattr(h, "idx", -1), 0)   # (closes deferred to the loop come later)
     return n
 
 
@@ -295,9 +298,9 @@ def c17_case(args):
         d = {"engine": "toolmachine", "cfg": case["cfg"], "nnext": case["nnext"], "flavours": fl, "susp": susp}
         if not o.acct.ok():
             out.append((f"C17/{tool}/token-or-reply-not-passed-through", {**d, "observed": o.acct.describe()}))
-        elif tool not in ("apply",) and o.nsusp != expected_suspensions(o, susp, fl) and tool != "await_each":
-            out.append((f"C17/{tool}/suspends-{'more' if o.nsusp > expected_suspensions(o, susp, fl) else 'less'}-than-user-awaitables",
-                        {**d, "expected": expected_suspensions(o, susp, fl), "observed": o.nsusp}))
+        elif tool not in ("apply",) and o.nsusp + o.nsusp_close != expected_suspensions(o, susp, fl) and tool != "await_each":
+            out.append((f"C17/{tool}/suspends-{'more' if o.nsusp + o.nsusp_close > expected_suspensions(o, susp, fl) else 'less'}-than-user-awaitables",
+                        {**d, "expected": expected_suspensions(o, susp, fl), "observed": o.nsusp + o.nsusp_close}))
         if len(_LOOP_CALLS) != before:
             out.append((f"C17/{tool}/touches-asyncio-loop", {**d, "observed": _LOOP_CALLS[before:][:3]}))
     # a cancellation that is asyncio's own exception class must still only travel through user awaitables
@@ -475,7 +478,9 @@ def c18_case(case):
                 bad = [i for i in bad if i == 0 or i <= fetched]
             if bad:
                 who = "unstarted-source" if all(o.states.get(i) == "new" for i in bad) else "source"
-                out.append((f"C18/{tool}/unreleased-{who}-after-cancel", {**d, "expected": "closed|exhausted", "observed": o.states}))
+                during = "+cancelled-inside-the-close-of-another-source" if (o.cancel_tag and o.cancel_tag[0] and o.cancel_tag[0][0] == "aclose") else ""
+                out.append((f"C18/{tool}/unreleased-{who}-after-cancel{during}", {**d, "expected": "closed|exhausted", "observed": o.states,
+                                                                                 "cancelled_at_token": o.cancel_tag}))
             if o.close_error:
                 out.append((f"C18/{tool}/close-after-cancel-raises", {**d, "observed": o.close_error}))
     return out, runs
